@@ -29,9 +29,11 @@ Statement clause -> ensures
   "resends the same packet when the host asks for a retry"    by the ghost machine: rty keeps head/hlen/seq and re-enters
         SENDING (or repeats the ZLP); header_fields/tx_framing then pin sequence number, length and framing of the resend
   "delivers the stream exactly once in order with short-packet/ZLP transfer ends"
-        packetisation and order of packets: by the ghost machine (hlen = bytes accepted, promoted in order, ZLP rule).
-        NOT PROVED: that the *payload bytes* read back from the two packet buffers are the bytes that were written
-        (needs a witness-symbol argument over both memories; not done).  Hence LEVEL = "other".
+        packetisation and order of packets: by the ghost machine (hlen = bytes accepted, promoted in order, ZLP rule);
+        payload: payload_is_the_accepted_word - a witness-symbol argument (rigid index k, captured payload v, invariants
+        saying in which of the two packet buffers / read register the k-th accepted word sits): the word with running
+        index i on the tx stream (index = words of all acknowledged packets + position in the present packet, so
+        retransmissions are included) carries the payload of the i-th accepted input word.  Unbounded.
 
 Scope / assumptions: stream `valid` is 0b0000/0001/0011/0111/1111 and partial words only come with `last`; IN requests
 that arrive while a data packet is still being transmitted (phase SENDING) are outside the statement (a host cannot
@@ -41,11 +43,14 @@ import z3
 from hwv.contract import B, zx, bvc
 from luna.gateware.usb.usb3.endpoints.stream import SuperSpeedStreamInEndpoint
 
-LEVEL = "other"
-EXPLANATION = ("All control/framing clauses (NRDY/ERDY/ZLP/data answer, sequence numbers, lengths, retry, ready) are proved "
-               "unbounded as refinement of a spec-side protocol machine; the payload-content part of 'delivers the stream "
-               "exactly once in order' (bytes read back from the packet buffers) is NOT proved.")
-ASSUMPTIONS = ["input stream: valid in {0,1,3,7,15}, partial words only together with last"]
+LEVEL = "proof"
+EXPLANATION = ("Refinement of a spec-side protocol machine (ghost state driven by the inputs only): every control output "
+               "(NRDY/ERDY/ZLP/ready), the tx framing, header fields (sequence number, length, endpoint) and - by a "
+               "witness-symbol argument over both packet buffers - the payload order are proved for all histories by "
+               "1-induction.  Safety only (no claim that the host ever asks).")
+ASSUMPTIONS = ["input stream: valid in {0,1,3,7,15}, partial words only together with last",
+               "IN requests arriving while a data packet is still being transmitted are not answered (no bursting)",
+               "fewer than 2^16 words between a word's acceptance and its acknowledgement (16-bit modular word counters)"]
 BOUNDED = []
 
 EMPTY, DATA, ZLP = 0, 1, 2
@@ -66,7 +71,11 @@ def make(M, N):
             "i_retry": i.handshakes_in.retry_required,
             "o_nrdy": i.handshakes_out.send_nrdy, "o_erdy": i.handshakes_out.send_erdy,
             "o_hs_ep": i.handshakes_out.endpoint_number, "i_done": i.handshakes_out.done, "i_ep_reset": i.ep_reset})
-        I, O = ts.inputs, ts.outputs
+        I, O = ts.inputs, dict(ts.outputs)
+        for n in [n for n in I if n.startswith("o_")]:
+            # an interface output the unit does not drive at all: in hardware it keeps its reset value (0)
+            c.require(f"undriven_{n}", I[n] == 0, why=f"{n} is not driven by the unit; an undriven signal holds its reset value 0")
+            O[n] = I[n]
         LW = max(M.bit_length() + 2, 6)
         L = lambda v: bvc(v, LW)
 
@@ -97,7 +106,11 @@ def make(M, N):
         adv = z3.And(verdict, z3.Not(B(I["i_retry"])), I["i_nseq"] == seq + 1)
         rty = z3.And(verdict, z3.Not(adv))
         head_k = z3.If(adv, z3.If(z3.And(head == DATA, hlen == M, B(hended)), bvc(ZLP, 2), bvc(EMPTY, 2)), head)
-        promote = z3.And(head_k == EMPTY, tcomp_a)
+        # A complete tail becomes the head as soon as the head is empty.  In the very cycle of an acknowledgement the tail
+        # only counts if it was complete before, or is being completed by the final word of a full multi-word packet
+        # (a one-word packet arriving in that cycle cannot be read back from the buffer in time; it is promoted one cycle later).
+        full_now = z3.And(accept, z3.UGE(fill + 4, L(M))) if M > 4 else z3.BoolVal(False)
+        promote = z3.And(head_k == EMPTY, z3.If(adv, z3.Or(B(tcomp), full_now), tcomp_a))
         head_n = z3.If(promote, bvc(DATA, 2), head_k)
         hlen_n = z3.If(promote, fill_a, z3.If(head_k == DATA, hlen, L(0)))
         hended_n = z3.If(promote, tended_a, z3.And(head_k == DATA, B(hended)))
@@ -202,13 +215,53 @@ def make(M, N):
                                    c.nx(O["o_tx_first"]) == O["o_tx_first"], c.nx(O["o_tx_last"]) == O["o_tx_last"])),
                  clause="delivers the stream exactly once: a word stays on the tx stream until the transmitter takes it")
 
+        # ---------------------------------------------------------------- payload: exactly once, in order (witness word)
+        # k = index (in the order of acceptance) of one arbitrary input word, v = its payload.  Packets are acknowledged in
+        # order and `base` counts the words of all acknowledged packets, so the word on the tx stream has index base+widx-1:
+        # if that is k, its payload must be v.  Holds for first transmissions and retries alike.
+        K = 16
+        k = c.rigid("k", K)
+        n_in, base, v = c.ghost("n_in", K), c.ghost("base", K), c.ghost("v", 32)
+        words = lambda nbytes_: zx((nbytes_ + 3) >> 2, K)
+        hw, tw = words(hlen), words(fill)
+        c.set_next(n_in, z3.If(accept, n_in + 1, n_in))
+        c.set_next(v, z3.If(z3.And(accept, n_in == k), I["i_payload"], v))
+        c.set_next(base, z3.If(z3.And(adv, head == DATA), base + hw, base))
+        mems = {}
+        for path in ("transmit_buffer_0", "transmit_buffer_1"):
+            arr, cell = ts.mem(path)
+            memidx = [idx for idx in ts.mems.values() if ts.state[('mem', idx)].eq(arr)][0]
+            rps = [val for key, val in ts.state.items() if key[0] == 'rp' and ts.nl.cells[key[1]].memory == memidx]
+            assert len(rps) == 1
+            mems[path] = (arr, rps[0])
+        (m0, rp0), (m1, rp1) = mems["transmit_buffer_0"], mems["transmit_buffer_1"]
+        AWm = m0.sort().domain().size()
+        sel = lambda arr, idx: z3.Select(arr, z3.Extract(AWm - 1, 0, idx))
+        off_h = k - base                      # position of the witness inside the head packet, if 0 <= off_h < hw
+        off_t = k - base - hw                 # ... inside the tail packet, if 0 <= off_t < tw
+        in_head, in_tail = z3.ULT(off_h, hw), z3.ULT(off_t, tw)
+        rd_mem = lambda idx: z3.If(toggle, sel(m0, idx), sel(m1, idx))
+        wr_mem = lambda idx: z3.If(toggle, sel(m1, idx), sel(m0, idx))
+        rd_rp = z3.If(toggle, rp0, rp1)
+        c.inv("words_accounted", n_in == base + hw + tw)
+        c.inv("witness_in_head_buffer", z3.Implies(in_head, rd_mem(off_h) == v))
+        c.inv("witness_in_tail_buffer", z3.Implies(in_tail, wr_mem(off_t) == v))
+        c.inv("witness_in_read_register",
+              z3.Implies(z3.And(fsm.is_("SEND_PACKET"), in_head, off_h == zx(widx, K)), rd_rp == v))
+        both("payload_is_the_accepted_word",
+             z3.Implies(z3.And(B(onbus), in_head, off_h + 1 == zx(widx, K)), O["o_tx_payload"] == v),
+             clause="delivers the stream exactly once in order: the i-th word handed to the transmitter (over all "
+                    "acknowledged packets, retries included) is the i-th word accepted from the input stream")
+        c.cover("witness_word_on_bus", z3.And(B(onbus), in_head, off_h + 1 == zx(widx, K), k == 2))
+
         # ---------------------------------------------------------------- vacuity
         c.cover("nrdy", B(O["o_nrdy"]))
         c.cover("nrdy_on_ack", z3.And(B(O["o_nrdy"]), adv))
         c.cover("erdy", B(O["o_erdy"]))
-        c.cover("zlp_after_full_packet", z3.And(B(O["o_tx_zlp"]), z3.Not(rty)))
-        c.cover("zlp_in_ack_cycle", z3.And(B(O["o_tx_zlp"]), req_ack))
-        c.cover("zlp_retry", z3.And(B(O["o_tx_zlp"]), rty))
+        shallow = M <= 32            # a ZLP needs a full-size packet first: M/4 input words and as many output words
+        c.cover("zlp_after_full_packet", z3.And(B(O["o_tx_zlp"]), z3.Not(rty)), reach=shallow)
+        c.cover("zlp_in_ack_cycle", z3.And(B(O["o_tx_zlp"]), req_ack), reach=shallow)
+        c.cover("zlp_retry", z3.And(B(O["o_tx_zlp"]), rty), reach=shallow)
         c.cover("retry_data", z3.And(rty, head == DATA))
         c.cover("short_packet_last_word", z3.And(B(onbus), is_last_word, rem == 2))
         c.cover("second_packet", z3.And(B(onbus), seq == 1))
